@@ -33,7 +33,7 @@ var c08Positions = []string{"top-rego", "top-regoModule", "top-code-message", "p
 // used as an identifier -> parse error, an unknown function, a type error, an unsafe variable, plain garbage). Such a
 // profile must still be rejected, by whatever error, and nothing may be evaluated: a compile path that falls back or
 // retries after one class of error must not lose the deny-list.
-var c08Broken = []string{"broken:kw-in", "broken:kw-every", "broken:kw-contains", "broken:kw-if", "broken:unknown-function", "broken:type-error", "broken:unsafe-var", "broken:garbage", "broken:import-future-again"}
+var c08Broken = []string{"broken:with-replace", "broken:with-replace-in-helper", "broken:kw-in", "broken:kw-every", "broken:kw-contains", "broken:kw-if", "broken:unknown-function", "broken:type-error", "broken:unsafe-var", "broken:garbage", "broken:import-future-again"}
 
 var c08Syntaxes = []string{"statement", "unify", "assign", "array-compr", "set-compr", "object-compr", "every", "argument", "negated", "some-in"}
 
@@ -125,6 +125,21 @@ func c08Code(b *ast.Builtin, syntax string) string {
 				return kw + " = " + call
 			}
 			return kw + " = 1\n" + call
+		}
+		if syntax == "broken:with-replace" || syntax == "broken:with-replace-in-helper" {
+			// the denied built-in never appears as a call: it is named as the replacement of a harmless built-in of the same
+			// arity in a `with` modifier (the engine rejects this through the same deny-list: "target must not be unsafe")
+			harmless := map[int]string{0: "time.now_ns()", 1: "count(\"x\")", 2: "trim(\"a.rego\", \"package x\")", 3: "substring(\"abc\", 0, 1)"}
+			target := map[int]string{0: "time.now_ns", 1: "count", 2: "trim", 3: "substring"}
+			n := len(b.Decl.FuncArgs().Args)
+			h, ok := harmless[n]
+			if !ok {
+				h, n = harmless[1], 1
+			}
+			if syntax == "broken:with-replace" {
+				return fmt.Sprintf("c08x := %s with %s as %s", h, target[n], b.Name)
+			}
+			return fmt.Sprintf("c08x := [c08y | c08y := %s with %s as %s]", h, target[n], b.Name)
 		}
 		stmt := c08Code(b, "unify")
 		switch syntax {
@@ -247,7 +262,7 @@ func c08Profile(code, position string) string {
 func init() {
 	Register(Meta{
 		ID: "C08", Level: "exploration",
-		Rule:        "B x P x S: B = every built-in registered in the linked engine (ast.Builtins of the OPA version the repository links, so a dependency bump changes B); P = 15 embedding positions of the profile language (top-level rego / regoModule / code+message, under a path as rego / regoModule, under not, and/or operand, if/then/else, inside nested, inside atLeast, a helper in rego_extensions called from a validation, also under nested+not); S = 10 call syntaxes (statement, unification, assignment, array/set/object comprehension, every, argument of another call, negated, some-in; relation form for walk) + 9 doubly-invalid forms for the denied built-ins (the call next to a future keyword used as an identifier, an unknown function, a type error, an unsafe variable, garbage, a repeated import: rejected for whatever reason, nothing evaluated). Arguments are synthesised from the declared type. Denied set F = {http.send, net.lookup_ip_addr, opa.runtime, rego.parse_module, walk}: every (p,s) must be rejected by CompileProfile, by Validate and by ValidateWithConfiguration under 3 report configurations (zero value, no dateCreated, custom schema IRIs) x 2 clocks, with zero resolver/dial attempts recorded by the instrumented net.DefaultResolver and loopback listener. All other built-ins are vacuity controls (the same templates must compile). Non-trivial = (builtin, position, syntax) for a denied built-in; distinct by profile text.",
+		Rule:        "B x P x S: B = every built-in registered in the linked engine (ast.Builtins of the OPA version the repository links, so a dependency bump changes B); P = 15 embedding positions of the profile language (top-level rego / regoModule / code+message, under a path as rego / regoModule, under not, and/or operand, if/then/else, inside nested, inside atLeast, a helper in rego_extensions called from a validation, also under nested+not); S = 10 call syntaxes (statement, unification, assignment, array/set/object comprehension, every, argument of another call, negated, some-in; relation form for walk) + 11 further forms for the denied built-ins that must be rejected for whatever reason with nothing evaluated (the built-in named only as the replacement in a `with` modifier, directly and inside a comprehension; the call next to a future keyword used as an identifier, an unknown function, a type error, an unsafe variable, garbage, a repeated import: rejected for whatever reason, nothing evaluated). Arguments are synthesised from the declared type. Denied set F = {http.send, net.lookup_ip_addr, opa.runtime, rego.parse_module, walk}: every (p,s) must be rejected by CompileProfile, by Validate and by ValidateWithConfiguration under 3 report configurations (zero value, no dateCreated, custom schema IRIs) x 2 clocks, with zero resolver/dial attempts recorded by the instrumented net.DefaultResolver and loopback listener. All other built-ins are vacuity controls (the same templates must compile). Non-trivial = (builtin, position, syntax) for a denied built-in; distinct by profile text.",
 		Assumptions: []string{"only the five built-ins the property names are required to be denied"},
 	}, c08Gen, c08Run)
 }
